@@ -100,7 +100,7 @@ def pcapng_block(btype, body, e="<"):
     return struct.pack(e + "II", btype, total) + _pad4(body) + struct.pack(e + "I", total)
 
 
-def write_pcapng(path, items, *, endian="<", tsresol=6, tsoffset=0, snaplen=0, offset_first=False, pre_idb=(), ifaces=1, late_idb=False):
+def write_pcapng(path, items, *, endian="<", tsresol=6, tsoffset=0, snaplen=0, offset_first=False, pre_idb=(), ifaces=1, late_idb=False, idle_first=None):
     """items: list of ('pkt', ts_us:int, frame) | ('dsb', text_bytes) | ('raw', btype, body)
     ts_us is integer microseconds since epoch; converted exactly to the chosen resolution when possible."""
     e = endian
@@ -119,6 +119,12 @@ def write_pcapng(path, items, *, endian="<", tsresol=6, tsoffset=0, snaplen=0, o
             out += pcapng_block(10, struct.pack(e + "II", 0x544C534B, len(it[1])) + it[1], e)
         elif it[0] == "raw":
             out += pcapng_block(it[1], it[2], e)
+    shift = 0
+    if idle_first is not None and not any(it[0] == "spb" for it in items):
+        # interface 0 is one on which nothing was captured, of another link type (loopback, Linux cooked, ...), with the same time
+        # parameters; every packet refers to a later interface
+        out += pcapng_block(1, struct.pack(e + "HHI", idle_first, 0, snaplen) + opts, e)
+        shift = 1
     out += pcapng_block(1, idb, e)
     # further interfaces with the same time parameters (a capture on several interfaces); packet i belongs to interface i % ifaces; their
     # description blocks follow the first one, or (late_idb) come right before the first packet that refers to them
@@ -141,7 +147,7 @@ def write_pcapng(path, items, *, endian="<", tsresol=6, tsoffset=0, snaplen=0, o
             sec -= tsoffset
             per_s = (1 << (tsresol & 0x7F)) if tsresol & 0x80 else 10 ** tsresol
             units = int(sec * per_s)
-            body = struct.pack(e + "IIIII", ifid, units >> 32, units & 0xFFFFFFFF, len(frame), len(frame)) + frame
+            body = struct.pack(e + "IIIII", ifid + shift, units >> 32, units & 0xFFFFFFFF, len(frame), len(frame)) + frame
             out += pcapng_block(6, body, e)
         elif it[0] == "idb":         # a further interface (no packet refers to it) with time parameters of its own
             _, r_, o_ = it
